@@ -773,11 +773,11 @@ def run(ctx):
     drive(ctx, expr_cases(), lambda c: exec_expr(ctx, c), ctx.n(1500, 12000), salt=1, label="C11 expr")
     ctx.stats.extra["seconds_expr"] = round(time.time() - t0, 1)
     t0 = time.time()
-    opts = H.Opts(ftasks=False, knobs=False, maint=False, max_ops=25, math_builtins=False)
+    opts = H.Opts(ftasks=False, knobs=False, maint=False, max_ops=25, math_builtins=False, divmod_item=True)
     drive(ctx, load_cases(opts), lambda c: exec_load(ctx, c), ctx.n(300, 2000), salt=2, label="C11 load")
     ctx.stats.extra["seconds_load"] = round(time.time() - t0, 1)
     t0 = time.time()
-    opts2 = H.Opts(ftasks=False, knobs=False, maint=False, max_ops=14, math_builtins=False)
+    opts2 = H.Opts(ftasks=False, knobs=False, maint=False, max_ops=14, math_builtins=False, divmod_item=True)
     drive(ctx, copy_cases(opts2), lambda c: exec_copy(ctx, c), ctx.n(300, 2000), salt=3, label="C11 copy")
     ctx.stats.extra["seconds_copy"] = round(time.time() - t0, 1)
 
